@@ -32,6 +32,10 @@ enum Cmd {
     /// split the k-th live object (a stream), shut its write half down, drop the write
     /// half and keep the read half: the stream stays live
     HalfClose(usize),
+    /// connect to the k-th live object (a listener of this host) through 127.0.0.1 (`false`)
+    /// or the host's own address (`true`), accept, let the accepted side write one byte, then
+    /// drop both ends while that byte is unread
+    SelfConn(usize, bool),
 }
 
 enum Obj {
@@ -144,6 +148,46 @@ pub fn ports_scenario(ch: &mut Chooser, thorough: bool) -> Exec {
                             }
                             "dropped".into()
                         }
+                        Cmd::SelfConn(k, own) => {
+                            let live: Vec<usize> = (0..objs.len()).filter(|&i| objs[i].is_some()).collect();
+                            match live.get(k).map(|&i| &objs[i]) {
+                                Some(Some(Obj::Listener(l))) => {
+                                    let port = l.local_addr().unwrap().port();
+                                    let ip: std::net::IpAddr = if own { turmoil::lookup("h") } else { "127.0.0.1".parse().unwrap() };
+                                    // a refused connect leaves the accept pending: stop waiting for it then
+                                    let (c, a) = {
+                                        let con = TcpStream::connect((ip, port));
+                                        let acc = l.accept();
+                                        tokio::pin!(con);
+                                        tokio::pin!(acc);
+                                        let (mut c_res, mut a_res) = (None, None);
+                                        loop {
+                                            tokio::select! {
+                                                r = &mut con, if c_res.is_none() => c_res = Some(r),
+                                                r = &mut acc, if a_res.is_none() => a_res = Some(r),
+                                            }
+                                            if matches!(c_res, Some(Err(_))) || (c_res.is_some() && a_res.is_some()) {
+                                                break;
+                                            }
+                                        }
+                                        (c_res.unwrap(), a_res.unwrap_or_else(|| Err(std::io::Error::new(std::io::ErrorKind::WouldBlock, "accept abandoned"))))
+                                    };
+                                    match (c, a) {
+                                        (Ok(c), Ok((mut a, _))) => {
+                                            let lp = c.local_addr().unwrap().port();
+                                            let w = tokio::io::AsyncWriteExt::write_all(&mut a, b"x").await;
+                                            tokio::time::sleep(std::time::Duration::from_millis(2)).await;
+                                            drop(c);
+                                            drop(a);
+                                            tokio::time::sleep(std::time::Duration::from_millis(1)).await;
+                                            format!("self-connected from port {lp}, write {}, both ends dropped", if w.is_ok() { "ok" } else { "err" })
+                                        }
+                                        (c, a) => format!("err connect={:?} accept={:?}", c.map(|_| ()).map_err(|e| errk(&e)), a.map(|_| ()).map_err(|e| errk(&e))),
+                                    }
+                                }
+                                _ => "not a listener".into(),
+                            }
+                        }
                         Cmd::HalfClose(k) => {
                             let live: Vec<usize> = (0..objs.len()).filter(|&i| objs[i].is_some()).collect();
                             match live.get(k).map(|&i| (i, objs[i].take())) {
@@ -196,6 +240,13 @@ pub fn ports_scenario(ch: &mut Chooser, thorough: bool) -> Exec {
         if let Some(k) = live.iter().position(|x| x.0 == MKind::Stream) {
             menu.push((format!("split live object #{k} (a stream), shut down and drop its write half, keep the read half"), Some(Cmd::HalfClose(k))));
         }
+        if let Some(k) = live.iter().position(|x| x.0 == MKind::Listener) {
+            // a wildcard listener is reachable through the host's own address as well
+            menu.push((format!("connect to live object #{k} (own listener) via 127.0.0.1, accept, one unread byte, drop both ends"), Some(Cmd::SelfConn(k, false))));
+            if obs.iter().any(|o| o.starts_with("tcp listen :")) {
+                menu.push((format!("connect to live object #{k} (own listener) via the host's own address, accept, one unread byte, drop both ends"), Some(Cmd::SelfConn(k, true))));
+            }
+        }
         let crash_mid_connect = menu.len();
         menu.push(("tcp connect peer:80, crash while the SYN is in flight, bounce".into(), None));
         let pick = ch.choose("op", menu.len());
@@ -237,12 +288,12 @@ pub fn ports_scenario(ch: &mut Chooser, thorough: bool) -> Exec {
         // expectation
         let used = in_use(&live);
         let range_full = (LO..=HI).all(|p| used.contains(&p));
-        let expect_panic = matches!(cmd, Cmd::UdpBind(0) | Cmd::TcpListen(0) | Cmd::TcpConnect) && range_full;
+        let expect_panic = matches!(cmd, Cmd::UdpBind(0) | Cmd::TcpListen(0) | Cmd::TcpConnect | Cmd::SelfConn(..)) && range_full;
         st.borrow_mut().results.clear();
         st.borrow_mut().cmds.push_back(cmd);
         wake.notify_one();
         let mut panicked = None;
-        for _ in 0..4 {
+        for _ in 0..if matches!(cmd, Cmd::SelfConn(..)) { 10 } else { 4 } {
             match vx_core::catch(|| sim.step()) {
                 Ok(Ok(_)) => {}
                 Ok(Err(e)) => {
@@ -323,6 +374,18 @@ pub fn ports_scenario(ch: &mut Chooser, thorough: bool) -> Exec {
                     feats.push("dropped");
                 }
             }
+            Cmd::SelfConn(..) => {
+                // a connection needs a free ephemeral port for its connecting end
+                if !res.starts_with("self-connected") && !(res.starts_with("err") && (LO..=HI).all(|p| used.contains(&p))) {
+                    // the listener may be bound to 127.0.0.1 only: reaching it through the
+                    // host's own address is refused
+                    if !res.contains("ConnectionRefused") {
+                        violation = Some(Violation::new("self-connect", format!("`{desc}` returned `{res}`")));
+                        break 'run;
+                    }
+                }
+                feats.push("self-connect");
+            }
             Cmd::HalfClose(k) => {
                 if res != "half-closed ok" {
                     violation = Some(Violation::new("half-close", format!("`{desc}` returned `{res}`")));
@@ -331,6 +394,20 @@ pub fn ports_scenario(ch: &mut Chooser, thorough: bool) -> Exec {
                 live[k].0 = MKind::HalfClosedStream;
                 feats.push("half-closed");
             }
+        }
+        // the host's tables hold exactly the live objects: (UDP binds, TCP binds, TCP streams)
+        let counts = sim.verif_host_counts("h");
+        let want = (
+            live.iter().filter(|x| x.0 == MKind::Udp).count(),
+            live.iter().filter(|x| x.0 == MKind::Listener).count(),
+            live.iter().filter(|x| matches!(x.0, MKind::Stream | MKind::HalfClosedStream)).count(),
+        );
+        if counts != want {
+            violation = Some(Violation::new(
+                "table-counts",
+                format!("after `{desc}` the host holds (udp binds, tcp binds, tcp streams) = {:?}; the live objects are {:?}, i.e. {:?}", counts, live, want),
+            ));
+            break 'run;
         }
     }
     if let Some(v) = violation.as_mut() {
@@ -451,6 +528,12 @@ pub fn dns_scenario(ch: &mut Chooser, thorough: bool) -> Exec {
                         obs.push(format!("lookup({ip}) = {got}"));
                         if got != ip {
                             violation = Some(Violation::new("literal", format!("lookup of the literal address {ip} returned {got}")));
+                        }
+                        // the same literal given as text (&str and String)
+                        let text = ip.to_string();
+                        let (got_s, got_string) = (sim.lookup(text.as_str()), sim.lookup(text.clone()));
+                        if (got_s != ip || got_string != ip) && violation.is_none() {
+                            violation = Some(Violation::new("literal", format!("lookup of the literal address \"{text}\" given as text returned {got_s} (&str) / {got_string} (String)")));
                         }
                         let rev = sim.reverse_lookup(ip);
                         if rev.as_deref() != Some(n) {
